@@ -22,6 +22,7 @@ from vplib import *
 
 PROP = "C12"
 KNOWN_ORDER = "index-order-by-name"
+QUICK_STATES = 1000
 
 
 def run_dir():
@@ -811,6 +812,18 @@ def main(tier, seed, replay=None):
             notes.append("%s: the system call trace yielded no file operation (strace output not understood)" % scen["name"])
         per.append((scen, base, metas, states))
         all_states += states
+    if tier == "quick" and not replay and len(all_states) > QUICK_STATES:
+        # fixed budget for the quick tier (recovery costs ~25 ms per state): keep every copy and every
+        # traced state of the corpus scenarios, sample the rest
+        keep = [s for s in all_states if s["kind"].startswith("copy")]
+        rest = [s for s in all_states if not s["kind"].startswith("copy")]
+        rng.shuffle(rest)
+        chosen = set(id(s) for s in keep + rest[:max(0, QUICK_STATES - len(keep))])
+        for s in all_states:
+            if id(s) not in chosen:
+                shutil.rmtree(s["dir"], ignore_errors=True)
+        all_states = [s for s in all_states if id(s) in chosen]
+        per = [(scen, base, metas, [s for s in states if id(s) in chosen]) for scen, base, metas, states in per]
     log("C12: %d crash states prepared %.0fs" % (len(all_states), time.time() - t0))
     recs, rnote = recover_all(all_states, "all")
     log("C12: recovered %.0fs" % (time.time() - t0))
